@@ -318,7 +318,10 @@ BinOp(op, a, b) ==
          [] OTHER -> bad
 
 (* ------------------------------ scopes --------------------------------- *)
-St0 == [envs |-> <<[p |-> 0, vs |-> <<>>]>>, out |-> <<>>, clos |-> <<>>]
+\* prec: the precedence the global operators carry NOW (`op::precedence = p` changes it; only the
+\* operators that chains in the vocabulary use are tracked)
+Prec0 == [o \in {"+", "-", "*"} |-> IF o = "*" THEN 5 ELSE 4]
+St0 == [envs |-> <<[p |-> 0, vs |-> <<>>]>>, out |-> <<>>, clos |-> <<>>, prec |-> Prec0]
 
 NewEnv(st, parent) == [st EXCEPT !.envs = Append(@, [p |-> parent, vs |-> <<>>])]
 LastEnv(st) == Len(st.envs)
@@ -466,10 +469,21 @@ Frz(st, env, e, b) ==
                         IN IF x.ok /\ h.ok THEN FzOk([e EXCEPT !.b = x.e, !.h = h.e]) ELSE FzFail
       [] e.n = "switch" -> LET x == Frz(st, env, e.e, b)  a == FrzArms(st, env, e.arms, 1, b \o Decls(e.e), <<>>)
                            IN IF x.ok /\ a.ok THEN FzOk([e EXCEPT !.e = x.e, !.arms = a.arms]) ELSE FzFail
+      \* an operator chain: the operators are free variables like any other, and the value an operator
+      \* name resolves to carries its precedence - so the grouping is fixed when the chain is frozen
+      [] e.n = "chain" -> LET f == FrzList(st, env, <<e.a, e.b, e.c>>, 1, b, <<>>, FALSE)
+                          IN IF ~f.ok \/ InSeq(e.o1, b) \/ InSeq(e.o2, b) THEN FzFail     \* (rebound operators: outside the vocabulary)
+                             ELSE FzOk([n |-> "chainf", a |-> f.es[1], b |-> f.es[2], c |-> f.es[3], o1 |-> e.o1, o2 |-> e.o2,
+                                        p1 |-> st.prec[e.o1], p2 |-> st.prec[e.o2]])
+      [] e.n = "chainf" -> FzOk(e)
+      [] e.n = "setprec" -> FzFail              \* frozen code cannot write to an outer variable
       [] e.n = "lam" -> LET ps == FrzParams(st, env, e.ps, 1, b, <<>>)
                             x == Frz(st, env, e.b, b \o [q \in 1..Len(e.ps) |-> e.ps[q].x])
                         IN IF ps.ok /\ x.ok THEN FzOk([e EXCEPT !.ps = ps.ps, !.b = x.e]) ELSE FzFail
-      [] e.n = "decl" -> LET x == Frz(st, env, e.e, b) IN IF x.ok THEN FzOk([e EXCEPT !.e = x.e]) ELSE FzFail
+      \* a declaration's initialiser runs BEFORE the name exists, so it sees the names bound so far - except
+      \* that the body of a lambda it creates runs later, when the name does exist (a local recursive function)
+      [] e.n = "decl" -> LET x == Frz(st, env, e.e, IF e.e.n = "lam" THEN b \o LvNames(e.x) ELSE b)
+                         IN IF x.ok THEN FzOk([e EXCEPT !.e = x.e]) ELSE FzFail
       [] e.n = "asg" -> LET t == FrzTarget(st, env, e.x, b)  x == Frz(st, env, e.e, b)
                         IN IF t.ok /\ x.ok THEN FzOk([e EXCEPT !.x = t.t, !.e = x.e]) ELSE FzFail
       [] e.n = "opasg" -> LET t == FrzTarget(st, env, e.x, b)  x == Frz(st, env, e.e, b)
@@ -498,6 +512,7 @@ RECURSIVE BindTuple(_, _, _, _, _)
 RECURSIVE EvLv(_, _, _)
 RECURSIVE EvLvSeq(_, _, _, _, _)
 RECURSIVE SwitchArms(_, _, _, _, _)
+RECURSIVE EveryCall(_, _, _, _, _, _, _)
 
 \* evaluate a list of expressions left to right; v of the result is the sequence of values
 EvList(st, env, es, i, acc) ==
@@ -534,6 +549,12 @@ BindTuple(st, env, lvs, vals, i) ==
     IF i > Len(lvs) THEN [ok |-> TRUE, st |-> st]
     ELSE LET b == BindLv(st, env, lvs[i], vals[i])
          IN IF ~b.ok THEN b ELSE BindTuple(b.st, env, lvs, vals, i + 1)
+
+\* `every x[lo:hi] f= w` with a user function f: slots j..hi of the copy l, each replaced by f(slot, w)
+EveryCall(st, env, f, l, w, j, hi) ==
+    IF j > hi \/ Len(l) < 0 THEN [st |-> st, k |-> "val", v |-> l, lv |-> 0, hv |-> FALSE]
+    ELSE LET r == CallFn(st, env, f, <<l[j], w>>)
+         IN IF ~IsVal(r) THEN r ELSE EveryCall(r.st, env, f, [l EXCEPT ![j] = r.v], w, j + 1, hi)
 
 (* A pattern is evaluated before it is matched (the implementation's eval_lvalue): `literally e`     *)
 (* becomes the literal pattern of e's value; a throw in e leaves the whole statement.                 *)
@@ -729,7 +750,7 @@ WhileRun(st, env, c, b) ==
 
 (* `every target op= w` (the implementation's modify_every): the operator is applied to every  *)
 (* addressed slot; the path may go through lists (index or slice) and dicts (defaults are       *)
-(* materialised); a failure part-way leaves the slots already modified.                          *)
+(* materialised); v of a failed result is the partly modified copy (which the caller discards).  *)
 ModEvery(c, path, i, op, w) ==
     IF i > Len(path) THEN LET o == BinOp(op, c, w) IN IF o.ok THEN [ok |-> TRUE, v |-> o.v] ELSE [ok |-> FALSE, v |-> c]
     ELSE LET ix == path[i]
@@ -847,7 +868,10 @@ Ev(st, env, e) ==
             IN CASE r.k = "val" -> post(fin(r.st, r.acc))
                  [] r.k = "brk" /\ r.lv = 0 -> IF r.hv THEN post(RVal(r.st, r.v)) ELSE post(fin(r.st, r.acc))
                  [] r.k = "brk" -> RBrk(r.st, r.lv - 1, r.hv, r.v)
-                 [] r.k = "cont" -> RCont(r.st, r.lv - 1)       \* lv > 0 here: level 0 never escapes the callback
+                 \* a level-0 continue never escapes the BODY (the iteration absorbs it); one that arrives here
+                 \* was raised while a clause's iterated expression was evaluated and is passed on unchanged
+                 \* (transcribed: `Err(NErr::Continue(n)) if n != 0 => n - 1`, anything else as it is)
+                 [] r.k = "cont" /\ r.lv > 0 -> RCont(r.st, r.lv - 1)
                  [] OTHER -> [st |-> r.st, k |-> r.k, v |-> r.v, lv |-> r.lv, hv |-> r.hv]
       [] e.n = "break" -> IF e.e.n = "none" THEN RBrk(st, e.lv, FALSE, Null)
                           ELSE LET r == Ev(st, env, e.e) IN IF IsVal(r) THEN RBrk(r.st, e.lv, TRUE, r.v) ELSE r
@@ -860,6 +884,28 @@ Ev(st, env, e) ==
                ELSE LET st1 == NewEnv(r.st, env)  \* the catch clause opens one
                         b == DeclVar(st1, LastEnv(st1), e.x, r.v)
                     IN Ev(b.st, LastEnv(st1), e.h)
+      [] e.n \in {"chain", "chainf"} ->
+            \* a o1 b o2 c: operands left to right, then the tighter operator first (ties: the left one)
+            LET ra == Ev(st, env, e.a)
+            IN IF ~IsVal(ra) THEN ra
+               ELSE LET rb == Ev(ra.st, env, e.b)
+                    IN IF ~IsVal(rb) THEN rb
+                       ELSE LET rc == Ev(rb.st, env, e.c)
+                            IN IF ~IsVal(rc) THEN rc
+                               ELSE LET p1 == IF e.n = "chainf" THEN e.p1 ELSE rc.st.prec[e.o1]
+                                        p2 == IF e.n = "chainf" THEN e.p2 ELSE rc.st.prec[e.o2]
+                                    IN IF p2 > p1
+                                       THEN LET inner == BinOp(e.o2, rb.v, rc.v)
+                                                outer == BinOp(e.o1, ra.v, inner.v)
+                                            IN IF inner.ok /\ outer.ok THEN RVal(rc.st, outer.v) ELSE RThr(rc.st, "type")
+                                       ELSE LET inner == BinOp(e.o1, ra.v, rb.v)
+                                                outer == BinOp(e.o2, inner.v, rc.v)
+                                            IN IF inner.ok /\ outer.ok THEN RVal(rc.st, outer.v) ELSE RThr(rc.st, "type")
+      [] e.n = "setprec" ->
+            LET r == Ev(st, env, e.e)
+            IN IF ~IsVal(r) THEN r
+               ELSE IF r.v.t # "int" THEN RThr(r.st, "type")
+               ELSE RVal([r.st EXCEPT !.prec[e.op] = r.v.i], Null)
       [] e.n = "switch" ->
             LET rs == Ev(st, env, e.e)
             IN IF ~IsVal(rs) THEN rs ELSE SwitchArms(rs.st, env, e.arms, 1, rs.v)
@@ -894,11 +940,25 @@ Ev(st, env, e) ==
                             IN IF ~IsVal(rf0) THEN rf0
                                ELSE LET r == Ev(rf0.st, env, e.e)
                                     IN IF ~IsVal(r) THEN r
+                                       \* the operator works on a COPY of the variable's value, stored back only when
+                                       \* every slot succeeded: a failure (and anything the operator does meanwhile)
+                                       \* finds and leaves the variable as it was
+                                       ELSE IF rf0.v.t = "fn"
+                                       THEN \* a user function as operator: one call per slot, left to right (modelled for
+                                            \* a path that is one slice of a list)
+                                            LET cur2 == ReadVar(r.st, env, e.x.x)
+                                            IN IF Len(rx.v) # 1 \/ rx.v[1].t # "slice" \/ cur2.v.t # "list"
+                                                  \/ ~BoundOk(rx.v[1].lo) \/ ~BoundOk(rx.v[1].hi) THEN RThr(r.st, "every-unmodelled")
+                                               ELSE LET n == Len(cur2.v.l)
+                                                        c == EveryCall(r.st, env, rf0.v, cur2.v.l, r.v,
+                                                                       SliceLo(n, rx.v[1].lo) + 1, SliceHi(n, rx.v[1].lo, rx.v[1].hi))
+                                                    IN IF ~IsVal(c) THEN c
+                                                       ELSE RVal(SetVar(c.st, env, e.x.x, [cur2.v EXCEPT !.l = c.v]).st, Null)
                                        ELSE IF rf0.v.t # "bfn" THEN RThr(r.st, "every")
                                        ELSE LET cur2 == ReadVar(r.st, env, e.x.x)
                                                 m == ModEvery(cur2.v, rx.v, 1, e.op, r.v)
                                                 st2 == SetVar(r.st, env, e.x.x, m.v).st
-                                            IN IF m.ok THEN RVal(st2, Null) ELSE RThr(st2, "every")
+                                            IN IF m.ok THEN RVal(st2, Null) ELSE RThr(r.st, "every")
                        ELSE LET old == GetPath(cur.v, rx.v, 1)
                             IN IF ~old.ok THEN RThr(rx.st, "index")
                                ELSE LET rf == Ev(rx.st, env, [n |-> "id", x |-> e.op])
